@@ -998,7 +998,14 @@ def m_int_from_bytes(vm, args, kw):
     val = z3.IntVal(0)
     for x in atoms:
         val = val * 256 + zint_(x)
-    return SInt(z3.simplify(val), (bv, w))
+    val = z3.simplify(val)
+    if len(atoms) > 1 and all(z3.is_expr(x) and x.sort != z3.BV for x in atoms) and z3.is_expr(val):
+        # remember the decomposition: to_bytes of this very term gives the same byte symbols back (no second set of
+        # byte variables whose equality with the first would need a uniqueness-of-representation proof)
+        le = list(reversed(atoms))
+        vm.path_cache.setdefault(('split', val.tid, len(atoms)), le)
+        vm.path_cache.setdefault(('unsplit', tuple(x.tid for x in le)), val)
+    return SInt(val, (bv, w))
 
 
 # --------------------------------------------------------------------------- struct / BytesIO
